@@ -111,6 +111,11 @@ parser { loop outer { case { "a" -> { if n == 0 { n = 1; } else { break outer; }
     ("feat-else-append", [], """out int{unsigned, size 1} n = 0; out str[3] s; hook h;
 parser { loop { try { /[abc]/; if $last == 'a' { n = 0; } else { s += [66]; } if $last == 'c' { s += [67]; } } catch (outofspace) { h(); delete s; "!"; } } }"""),
 ]
+# an append among the start actions that overflows inside start(): its multi-state handler is reachable from nowhere else
+FEATURES += [
+    ("feat-start-overflow", [], """out str[2] foo = "a"; out int n = 0; hook h;
+parser { try { foo += [66]; n = 1; "x"; } catch (outofspace) { "yz"; h(); "w"; n = 2; } "!"; }"""),
+]
 # a program ending in an action-less fall-through into its final state (empty else clause / empty catch block)
 FEATURES += [
     ("feat-final-else", [], """out int m = 0; hook h;
